@@ -589,6 +589,16 @@ func (m *Model) Interest(idx int, op Op, wire []byte, em []Emission) *Violation 
 	e := m.pit[key]
 	life := lifetimeOf(op)
 
+	// tokens this face supplied with earlier Interests still recorded in the entry (an answer
+	// to a retransmission may echo any of them, as for forwarded Data)
+	prevToks := map[string]bool{}
+	if e != nil {
+		if r, ok := e.in[op.F]; ok {
+			for _, t := range r.toks {
+				prevToks[t] = true
+			}
+		}
+	}
 	// a cache answer: exactly one Data, to the requester, and nothing forwarded
 	checkCacheAnswer := func() (*Violation, bool) {
 		if len(datas) == 0 {
@@ -611,7 +621,7 @@ func (m *Model) Interest(idx int, op Op, wire []byte, em []Emission) *Violation 
 		if isLocalhost(dn) && !f.Local {
 			return viol("C09", "cached Data %s sent to non-local face %d", dn, op.F), true
 		}
-		if tokHex(d.Tok) != op.Tok {
+		if tokHex(d.Tok) != op.Tok && !prevToks[tokHex(d.Tok)] {
 			return viol("C01", "cache answer for Interest #%d on face %d carries PIT token %q, the face supplied %q", idx, op.F, tokHex(d.Tok), op.Tok), true
 		}
 		m.St.CsHits++
